@@ -315,6 +315,8 @@ func (w *vfWorld) Apply(o vfOp) (err error, panicked bool) {
 		return w.FW.CreateSoftLink(o.Path, o.Target), false
 	case "extlink":
 		return w.FW.CreateExternalLink(o.Path, "other.h5", o.Target), false
+	case "densegroup":
+		return w.FW.CreateDenseGroup(o.Path, map[string]string{"x": o.Target}), false
 	case "close":
 		return w.Close(), false
 	}
